@@ -54,8 +54,8 @@ type cbRec struct {
 
 func TestC17_ReadAndWriteInFlight(t *testing.T) {
 	rec := evid.For("C17")
-	rec.SetRule("rapid schedules on a real handshake against a raw harness server over the real AsyncAdapter: peer sends data messages (1-2 fragments), pings, optionally a close; the application starts AsyncNextFrame/AsyncNextMessage (one read outstanding), AsyncWrite/AsyncWriteFrame/AsyncFlush (one application write outstanding), AsyncClose, in generated positions relative to PollOne calls, in particular an application write issued while the read path's automatic Pong flush has not completed; peer drains; oracle: every user callback is invoked exactly once (after everything was made completable and readiness confirmed, within 40 PollOne calls), reads deliver the peer's frames/messages in order, the server-side byte stream parses completely into the expected frames in submission order (pongs echo their ping), IO.Pending() returns to 0 when nothing is outstanding; non-trivial = an application write issued while a control-reply flush was in flight, or a read and a write callback in the same PollOne; distinct = hash of the schedule")
-	rec.Assume("messages <= 2 KiB so that the adapter's blocking net.Conn.Write always fits the socket buffer; one read and one application write outstanding at a time (the automatic control replies of the read path are the overlap under test)")
+	rec.SetRule("rapid schedules on a real handshake against a raw harness server over the real AsyncAdapter: peer sends data messages (1-2 fragments), pings, optionally a close; the application starts AsyncNextFrame/AsyncNextMessage (one read outstanding), AsyncWrite/AsyncWriteFrame/AsyncFlush (up to three application writes outstanding), AsyncClose, in generated positions relative to PollOne calls, and completion callbacks that themselves re-arm the read and/or start the next write (echo-style, generated per callback), in particular an application write issued while the read path's automatic Pong flush has not completed; peer drains; oracle: every user callback is invoked exactly once (after everything was made completable and readiness confirmed, within 40 PollOne calls), reads deliver the peer's frames/messages in order, the server-side byte stream parses completely into the expected frames in submission order (pongs echo their ping), IO.Pending() returns to 0 when nothing is outstanding; non-trivial = an application write issued while a control-reply flush was in flight, or a read and a write callback in the same PollOne; distinct = hash of the schedule")
+	rec.Assume("messages <= 2 KiB so that the adapter's blocking net.Conn.Write always fits the socket buffer; one read outstanding at a time, up to three application writes (they queue behind whatever flush is in flight; the automatic control replies of the read path are the overlap under test)")
 	overlapKnown := known.Listed("C17", "overlapping-flush-drops-continuation")
 	vt.CheckSteps(t, 200, 25, func(rt *rapid.T) {
 		ln, err := sysx.ListenTCP()
@@ -84,6 +84,13 @@ func TestC17_ReadAndWriteInFlight(t *testing.T) {
 		defer syscall.Close(srv)
 		defer s.CloseNextLayer()
 		cfd := s.RawFd()
+		// what completion callbacks do (applications re-arm and echo from their callbacks): per read callback
+		// 0 nothing, 1 re-arm the read, 2 start a write, 3 write then re-arm, 4 re-arm then write; per write callback 0 nothing, 1 next write
+		readActs := rapid.SliceOfN(rapid.IntRange(0, 4), 1, 8).Draw(rt, "readActs")
+		writeActs := rapid.SliceOfN(rapid.IntRange(0, 1), 1, 6).Draw(rt, "writeActs")
+		ri, wi := 0, 0
+		fromCallback := false
+		quiesce := false
 
 		var trace []string
 		log := func(f string, a ...any) { trace = append(trace, fmt.Sprintf(f, a...)) }
@@ -94,7 +101,8 @@ func TestC17_ReadAndWriteInFlight(t *testing.T) {
 			}
 		}
 		var cbs []*cbRec
-		var readCb, writeCb *cbRec
+		var readCb *cbRec
+		writesOut := 0 // application writes whose callback has not run yet (up to 3 may overlap)
 		var inbound []rfc6455.Frame // frames the server sent, not yet delivered to the app
 		var expWire []expOut        // frames the server must receive, in order
 		var wire []byte
@@ -133,7 +141,10 @@ func TestC17_ReadAndWriteInFlight(t *testing.T) {
 				peerClosed = true
 			}
 		}
-		startRead := func(msgAPI bool) {
+		var startRead func(msgAPI bool)
+		var appWrite func(kind string)
+		var afterRead func(err error)
+		startRead = func(msgAPI bool) {
 			r := &cbRec{what: fmt.Sprintf("read#%d", len(cbs))}
 			cbs = append(cbs, r)
 			readCb = r
@@ -163,6 +174,7 @@ func TestC17_ReadAndWriteInFlight(t *testing.T) {
 					if !bytes.Equal(acc, buf[:n]) {
 						fail("%s delivered %d bytes %x.., the peer sent %d bytes %x..", r.what, n, head(buf[:n], 8), len(acc), head(acc, 8))
 					}
+					afterRead(err)
 				})
 			} else {
 				log("AsyncNextFrame#%d", len(cbs)-1)
@@ -184,7 +196,39 @@ func TestC17_ReadAndWriteInFlight(t *testing.T) {
 						fail("%s delivered op=%d fin=%v %x.., the peer sent %v", r.what, f.Opcode(), f.IsFIN(), head(f.Payload(), 8), w)
 					}
 					onFrameDelivered(w)
+					afterRead(err)
 				})
+			}
+		}
+		afterRead = func(err error) {
+			if err != nil || problem != "" || readEOF || quiesce {
+				return
+			}
+			act := readActs[ri%len(readActs)]
+			ri++
+			rearm := func() {
+				if readCb == nil {
+					fromCallback = true
+					startRead(false)
+				}
+			}
+			write := func() {
+				if writesOut < 3 {
+					fromCallback = true
+					appWrite("AsyncWrite")
+				}
+			}
+			switch act {
+			case 1:
+				rearm()
+			case 2:
+				write()
+			case 3:
+				write()
+				rearm()
+			case 4:
+				rearm()
+				write()
 			}
 		}
 		s.SetControlCallback(func(mt websocket.MessageType, p []byte) {
@@ -203,10 +247,10 @@ func TestC17_ReadAndWriteInFlight(t *testing.T) {
 			fail("control callback invoked but the peer sent no control frame")
 		})
 		msgCounter := 0
-		appWrite := func(kind string) {
+		appWrite = func(kind string) {
 			r := &cbRec{what: fmt.Sprintf("write#%d", len(cbs))}
 			cbs = append(cbs, r)
-			writeCb = r
+			writesOut++
 			msgCounter++
 			n := rapid.SampledFrom([]int{0, 1, 100, 126, 2000}).Draw(rt, "wlen")
 			p := make([]byte, n)
@@ -218,8 +262,15 @@ func TestC17_ReadAndWriteInFlight(t *testing.T) {
 			}
 			cb := func(err error) {
 				noteCb(r, err)
-				writeCb = nil
+				writesOut--
 				log("cb:%s(%v)", r.what, err)
+				if err == nil && problem == "" && !quiesce && writeActs[wi%len(writeActs)] == 1 && len(cbs) < 60 {
+					wi++
+					fromCallback = true
+					appWrite("AsyncWrite")
+				} else {
+					wi++
+				}
 			}
 			open := !closedByUs && !peerClosed && s.State() == websocket.StateActive
 			log("%s#%d(%d)", kind, len(cbs)-1, n)
@@ -314,7 +365,7 @@ func TestC17_ReadAndWriteInFlight(t *testing.T) {
 				startRead(false)
 			},
 			"write": func(rt *rapid.T) {
-				if writeCb != nil {
+				if writesOut >= 3 {
 					rt.Skip("write outstanding")
 				}
 				if overlapKnown && readCb != nil {
@@ -323,12 +374,38 @@ func TestC17_ReadAndWriteInFlight(t *testing.T) {
 				}
 				appWrite(rapid.SampledFrom([]string{"AsyncWrite", "AsyncWrite", "AsyncWriteFrame", "AsyncFlush"}).Draw(rt, "wkind"))
 			},
+			"pongOverlap": func(rt *rapid.T) {
+				// the situation the property singles out: an automatic Pong flush in flight, an application write queued
+				// behind it, more peer frames already buffered, and callbacks that re-arm/echo when the flush completes
+				if peerClosedSent || readEOF {
+					rt.Skip("peer closed")
+				}
+				peerSend(rfc6455.Frame{Fin: true, Opcode: rfc6455.OpPing, Payload: []byte{byte(len(inbound)), 1}, LenBytes: -1})
+				if rapid.Bool().Draw(rt, "secondPing") {
+					peerSend(rfc6455.Frame{Fin: true, Opcode: rfc6455.OpPing, Payload: []byte{byte(len(inbound)), 2}, LenBytes: -1})
+				} else {
+					peerSend(rfc6455.Frame{Fin: true, Opcode: rfc6455.OpBinary, Payload: genPayload(rt, 300, "po."), LenBytes: -1})
+				}
+				if readCb == nil {
+					startRead(false)
+				}
+				poll()
+				checkNow()
+				if readCb == nil && !readEOF {
+					startRead(false) // flushes the queued Pong: in flight until the next poll
+				}
+				if writesOut < 3 {
+					appWrite("AsyncWrite") // queued behind that flush
+				}
+				poll()
+			},
 			"poll":  func(rt *rapid.T) { poll() },
 			"poll2": func(rt *rapid.T) { poll() },
 			"": func(rt *rapid.T) { checkNow() },
 		})
 		checkNow()
-		// wind down: make the outstanding read completable and poll until every callback ran
+		// wind down: callbacks stop starting new operations; make the outstanding read completable and poll until every callback ran
+		quiesce = true
 		if readCb != nil && len(inbound) == 0 && !peerClosedSent {
 			peerSend(rfc6455.Frame{Fin: true, Opcode: rfc6455.OpBinary, Payload: []byte("fin"), LenBytes: -1})
 		}
@@ -384,6 +461,9 @@ func TestC17_ReadAndWriteInFlight(t *testing.T) {
 		}
 		if sameCycle {
 			cls = append(cls, "read+write-callbacks-in-one-poll")
+		}
+		if fromCallback {
+			cls = append(cls, "operations-started-from-callbacks")
 		}
 		rec.Case(strings.Join(trace, ","), overlapWrite || sameCycle, cls, map[string]any{"schedule": trace})
 	})
